@@ -10,6 +10,8 @@ package responsemanager
 //@ func ResponseManager.taskDataForKey
 //@   lenient
 //@   safety off
+//@   -- (C07: the budget is handed to the traversal as an int64: the conversion must preserve the limit)
+//@   overflow checked
 //@   modifies inProgressResponseStatus.traverser, inProgressResponseStatus.state, alloc, Budget.NodeBudget, Budget.LinkBudget
 //@   watch globalMax: rm.maxLinksPerRequest
 //@   -- C23: a task is handed out only for a tracked response, which is Running from then on
@@ -18,7 +20,7 @@ package responsemanager
 //@   callsite TraversalBuilder.Start: assert
 //@        let g := rm.maxLinksPerRequest :: let r := response.maxLinks ::
 //@        let eff := ite(g == 0, r, ite(r != 0 && r < g, r, g)) ::
-//@        (eff == 0 <==> self.Budget == nil) && (eff != 0 ==> self.Budget.LinkBudget == eff)
+//@        (eff == 0 <==> self.Budget == nil) && (eff != 0 ==> self.Budget.LinkBudget == ite(eff > 9223372036854775807, 9223372036854775807, eff))
 //@   -- C22: the traversal gets the manager's own panic callback
 //@   callsite TraversalBuilder.Start: assert self.PanicCallback == rm.panicCallback
 
